@@ -10,7 +10,7 @@ pub const SCALARS: &[(&str, char)] = &[
     ("char", 'i'), ("signed char", 'i'), ("unsigned char", 'i'), ("short", 'i'), ("unsigned short", 'i'),
     ("int", 'i'), ("unsigned int", 'i'), ("long", 'i'), ("unsigned long", 'i'), ("long long", 'i'),
     ("unsigned long long", 'i'), ("_Bool", 'b'), ("float", 'f'), ("double", 'f'), ("long double", 'n'),
-    ("__int128", 'i'), ("unsigned __int128", 'i'),
+    ("__int128", 'i'), ("unsigned __int128", 'i'), ("__float128", 'n'),
 ];
 pub const BIT_BASES: &[(&str, u32)] = &[
     ("char", 8), ("unsigned char", 8), ("short", 16), ("unsigned short", 16), ("int", 32), ("unsigned int", 32),
@@ -92,6 +92,8 @@ pub struct GenCfg {
     pub unions: bool,
     pub int128: bool,
     pub long_double: bool,
+    /// `__float128` (x86 only)
+    pub float128: bool,
     /// `long` bit-fields are at most 32 bits wide (portable to ILP32 / LLP64 targets)
     pub portable: bool,
     pub prefix: String,
@@ -100,7 +102,7 @@ pub struct GenCfg {
 impl Default for GenCfg {
     fn default() -> Self {
         GenCfg { n_decls: 20, max_members: 6, max_depth: 2, bitfields: true, packed: true, aligned: true, pragma_pack: true,
-                 unions: true, int128: true, long_double: true, portable: false, prefix: String::new() }
+                 unions: true, int128: true, long_double: true, float128: true, portable: false, prefix: String::new() }
     }
 }
 
@@ -218,6 +220,7 @@ impl Gen<'_> {
             let n = SCALARS[i].0;
             if n.contains("__int128") && !(self.cfg.int128 && self.rng.chance(1, 2)) { continue; }
             if n == "long double" && !(self.cfg.long_double && self.rng.chance(1, 2)) { continue; }
+            if n == "__float128" && !(self.cfg.float128 && self.rng.chance(1, 2)) { continue; }
             return Ty::Scalar(i);
         }
     }
@@ -317,6 +320,31 @@ impl Gen<'_> {
         Record { is_union, tag, typedef_name, members, packed, aligned, pragma_pack }
     }
 
+    /// a struct under `#pragma pack(N)` in which every sized member already fits N: the only
+    /// member whose natural alignment exceeds N is a trailing flexible / zero-length array (or
+    /// there is none at all) — the boundary of bindgen's packing inference
+    fn pack_witness(&mut self) -> Record {
+        let idx = |n: &str| SCALARS.iter().position(|s| s.0 == n).unwrap();
+        let n = *self.rng.pick(&[1u32, 2, 4]);
+        let small: &[&str] = match n { 1 => &["char", "signed char", "unsigned char", "_Bool"], 2 => &["char", "short", "unsigned short", "unsigned char"], _ => &["char", "short", "int", "unsigned int", "float"] };
+        let big: &[&str] = match n { 1 => &["short", "int", "long", "double"], 2 => &["int", "long", "double", "long long"], _ => &["long", "long long", "double", "unsigned long"] };
+        let mut members = vec![];
+        let cnt = 1 + self.rng.below(3);
+        for j in 0..cnt {
+            let nm: &str = *self.rng.pick(small); let t = Ty::Scalar(idx(nm));
+            let t = if self.rng.chance(1, 4) { Ty::Array(Box::new(t), vec![1 + self.rng.below(5)]) } else { t };
+            members.push(Member { name: format!("w{j}"), kind: MemberKind::Plain(t), aligned: None });
+        }
+        let nm: &str = *self.rng.pick(big); let e = Ty::Scalar(idx(nm));
+        match self.rng.below(3) {
+            0 => members.push(Member { name: "tail".into(), kind: MemberKind::Flex(e), aligned: None }),
+            1 => members.push(Member { name: "tail".into(), kind: MemberKind::Plain(Ty::Array(Box::new(e), vec![0])), aligned: None }),
+            _ => {}
+        }
+        let (tag, typedef_name) = if self.rng.chance(1, 5) { (String::new(), self.fresh("T")) } else { (self.fresh("R"), String::new()) };
+        Record { is_union: false, tag, typedef_name, members, packed: false, aligned: None, pragma_pack: Some(n) }
+    }
+
     fn enum_decl(&mut self) -> EnumD {
         let name = self.fresh("E");
         let n = 1 + self.rng.below(4) as usize;
@@ -350,6 +378,9 @@ pub fn generate(rng: &mut Rng, cfg: &GenCfg) -> Program {
         } else if k < 25 {
             let t = g.fresh("F");
             g.decls.push(Decl::Forward(t));
+        } else if k < 29 && cfg.pragma_pack {
+            let r = g.pack_witness();
+            g.decls.push(Decl::Record(r));
         } else {
             let mut fc = 0; let r = g.record(0, false, &mut fc);
             g.decls.push(Decl::Record(r));
